@@ -133,6 +133,39 @@ def run(tier, seed):
                          "base_program": checklib.strip_meta(dict(base, obs=[])),
                          "strat_program": checklib.strip_meta(dict(strat, obs=[]))}]
         progs.append(strat)
+    # a model that already carries a strain stratification (of its infected compartments), extended by an unadjusted
+    # ordinary stratification - full, or partial on compartments listed before the strain-stratified ones
+    for i in range(max(6, n // 8)):
+        r = g.rng
+        base = g.program({"nstrat": 0, "requests": False, "state_rates": False, "nsteps": r.choice([2, 3]), "nonlinear": True,
+                          "h": r.choice(["1/4", "1/8", "1/2"]), "kind_pool": ["transition", "transition", "death"], "p_udeath": 0.3})
+        infl = [o for o in base["ops"] if o["op"] == "flow" and o["kind"].startswith("infection")]
+        if not infl:
+            continue
+        infected = sorted(set(base["inf"]) | {o["dst"] for o in infl}, key=base["comps"].index)
+        if any(o["src"] in infected for o in infl):
+            continue
+        sstr = {"op": "strat", "kind": "strain", "name": "strain", "strata": ["a", "b"], "comps": infected, "fadj": [], "iadj": {},
+                "split": {"a": r.choice(["1/4", "5/8"]), "b": None}}
+        sstr["split"]["b"] = str(1 - gen.Fraction(sstr["split"]["a"]))
+        base["ops"] += [sstr, {"op": "req", "name": "allcomp", "save": True, "req": {"type": "comp", "names": list(base["comps"]), "filt": {}}}]
+        strat = copy.deepcopy(base)
+        reqs = [o for o in strat["ops"] if o["op"] == "req"]
+        strat["ops"] = [o for o in strat["ops"] if o["op"] != "req"]
+        so = unadjusted_strat(g, strat, ["strain"], r.choice(["full", "partial"]))
+        if so["name"] == "strain":
+            continue
+        strat["ops"] += [so] + reqs
+        strat["meta"] = dict(base.get("meta", {}), strats=["strain", "unadjusted"])
+        pv = g.params_values(small=True)
+        obs = [{"obs": "struct"}]
+        if nsteps(strat) <= 2:
+            obs.append({"obs": "run", "solver": "euler", "params": pv})
+        obs.append({"obs": "oracle", "name": "c03", "params": pv, "seed": seed + 1000 + i, "new_strats": [so["name"]],
+                    "states": 3 if tier == "quick" else 6, "strain_only": False, "discontinuous": '"pw"' in json.dumps(base["ops"]),
+                    "base_program": checklib.strip_meta(dict(base, obs=[])), "strat_program": checklib.strip_meta(dict(strat, obs=[]))})
+        strat["obs"] = obs
+        progs.append(strat)
     out = []
     for p, st in with_struct(progs):
         if st is not None and not any(o.get("proportionate") for o in p["obs"]):
@@ -143,7 +176,7 @@ def run(tier, seed):
     ex = checklib.explore(out, keys=KEYS, per_prog_timeout=40.0)
     nontrivial = {checklib.signature(p) for p, a in zip(out, ex["mres"]) if a.get("build_error") is None}
     return {"programs": out, "explore": ex, "distinct_nontrivial": len(nontrivial),
-            "rule": "(plus full stratifications with a proportionate mixing matrix - rows equal to the split - compared along the trajectory from the split population) base models over all flow kinds (absolute, import and birth flows included), optionally already stratified "
+            "rule": "(plus models that already carry a strain stratification extended by an unadjusted ordinary one; plus full stratifications with a proportionate mixing matrix - rows equal to the split - compared along the trajectory from the split population) base models over all flow kinds (absolute, import and birth flows included), optionally already stratified "
                     "with adjustments, extended by 1-2 unadjusted stratifications (full, partial on a random subset, age, strain "
                     "on the infected compartments) with splits summing to one; the stratified program is compared with the model; "
                     "on the implementation stratified vs unstratified: comp_rates and per-name flow rates at 3 (quick) / 6 "
